@@ -106,7 +106,7 @@ func (g *fgen) pct(n int) bool { return g.r.Intn(100) < n }
 
 var fLabelNames = []string{"x", "y", "val", "_a", "é1", "rest"}
 var fFailLabels = []string{"e1", "ErrX", "l_2"}
-var fLitPool = []string{"a", "b", "+", "ab", "", " ", "\n", "\t", "é", "\\", "\"", "'", "`", "←", "\U0001F600", "x{", "}", "/*", "//", "\x00", "\x7f", "i", "A", "Ab", "SELECT", "É", "ǅ", "İ", "\u212a", "aB\n"}
+var fLitPool = []string{"a", "b", "+", "ab", "", " ", "\n", "\t", "é", "\\", "\"", "'", "`", "←", "\U0001F600", "x{", "}", "/*", "//", "\x00", "\x7f", "i", "A", "Ab", "SELECT", "É", "ǅ", "İ", "\u212a", "aB\n", "\xe9", "\xfc\x80", "a\xffb", "\xc3"}
 var fCodePool = []string{
 	"{ return nil, nil }",
 	"{\n\treturn string(c.text), nil\n}",
@@ -470,6 +470,31 @@ func (p *fprinter) lit(n *FNode) {
 		}
 		n.Raw = raw
 	}()
+	if !utf8.ValidString(n.Lit) {
+		// a value that is not UTF-8 can only be written with byte escapes (\xNN, \NNN): "\xe9" and '\xe9' denote the one
+		// byte 0xE9, not the rune U+00E9
+		q := byte('"')
+		if len(n.Lit) == 1 && p.r.Intn(2) == 0 {
+			q = '\''
+		}
+		p.w(string(q))
+		for i := 0; i < len(n.Lit); i++ {
+			b := n.Lit[i]
+			switch {
+			case b >= 0x80 && p.r.Intn(2) == 0:
+				p.w(`\x` + hexN(rune(b), 2))
+			case b >= 0x80:
+				p.w(fmt.Sprintf(`\%03o`, b))
+			default:
+				p.w(p.spellStrChar(rune(b), q))
+			}
+		}
+		p.w(string(q))
+		if n.IC {
+			p.w("i")
+		}
+		return
+	}
 	q := byte('"')
 	rs := []rune(n.Lit)
 	validUTF8Bytes := utf8.ValidString(n.Lit)
